@@ -61,3 +61,90 @@ func TestProbeC19ConcurrentFirstUploads(t *testing.T) {
 	}
 	wg.Wait()
 }
+
+// TestProbeC19MediaAndInitConcurrently: media uploads of one track while other tracks of the same
+// channel register (init), then enough media for the channel goroutine to establish the master
+// segment duration while uploads continue. Run with -race.
+func TestProbeC19MediaAndInitConcurrently(t *testing.T) {
+	_ = logging.InitSlog("error", "text")
+	tmpDir, err := os.MkdirTemp("", "recv-probe-c19b")
+	if err != nil {
+		t.Fatal(err)
+	}
+	defer os.RemoveAll(tmpDir)
+	opts := Options{prefix: "/upload", timeShiftBufferDepthS: 30, storage: tmpDir}
+	ctx, cancel := context.WithCancel(context.Background())
+	defer cancel()
+	receiver, err := NewReceiver(ctx, &opts, &Config{})
+	if err != nil {
+		t.Fatal(err)
+	}
+	server := httptest.NewServer(setupRouter(receiver, opts.storage, ""))
+	defer server.Close()
+	src := filepath.Join("testdata", "zero_3.84s")
+	put := func(tr, name, ext string) {
+		file := name
+		if name == "init" {
+			file = "init_org"
+		}
+		data, err := os.ReadFile(filepath.Join(src, tr, file+ext))
+		if err != nil {
+			t.Error(err)
+			return
+		}
+		req, _ := http.NewRequest(http.MethodPut, fmt.Sprintf("%s/upload/ch/%s/%s%s", server.URL, tr, name, ext), bytes.NewReader(data))
+		resp, err := http.DefaultClient.Do(req)
+		if err == nil {
+			resp.Body.Close()
+		}
+	}
+	put("video-500Kbps", "init", ".cmfv")
+	var wg sync.WaitGroup
+	wg.Add(1)
+	go func() { // the master track in order, so that the channel goroutine establishes the segment duration meanwhile
+		defer wg.Done()
+		for _, n := range []string{"0", "1", "2", "3", "4", "5"} {
+			put("video-500Kbps", n, ".cmfv")
+		}
+	}()
+	for _, job := range [][3]string{{"audio-nor-128Kbps", "3", ".cmfa"}, {"video-800Kbps", "3", ".cmfv"}, {"audio-nor-128Kbps", "4", ".cmfa"}, {"video-800Kbps", "4", ".cmfv"}, {"video-800Kbps", "init", ".cmfv"}, {"audio-nor-128Kbps", "init", ".cmfa"},
+		{"video-800Kbps", "0", ".cmfv"}, {"audio-nor-128Kbps", "0", ".cmfa"},
+		{"video-800Kbps", "1", ".cmfv"}, {"audio-nor-128Kbps", "1", ".cmfa"},
+		{"video-800Kbps", "2", ".cmfv"}, {"audio-nor-128Kbps", "2", ".cmfa"}} {
+		wg.Add(1)
+		go func(j [3]string) { defer wg.Done(); put(j[0], j[1], j[2]) }(job)
+	}
+	wg.Wait()
+}
+
+// TestProbeC19RawMode: concurrent raw uploads of one track (receiveNrRaws > 0). Run with -race.
+func TestProbeC19RawMode(t *testing.T) {
+	_ = logging.InitSlog("error", "text")
+	tmpDir, err := os.MkdirTemp("", "recv-probe-c19c")
+	if err != nil {
+		t.Fatal(err)
+	}
+	defer os.RemoveAll(tmpDir)
+	opts := Options{prefix: "/upload", timeShiftBufferDepthS: 30, storage: tmpDir, receiveNrRawSegments: 50}
+	ctx, cancel := context.WithCancel(context.Background())
+	defer cancel()
+	receiver, err := NewReceiver(ctx, &opts, &Config{})
+	if err != nil {
+		t.Fatal(err)
+	}
+	server := httptest.NewServer(setupRouter(receiver, opts.storage, ""))
+	defer server.Close()
+	var wg sync.WaitGroup
+	for i := 0; i < 8; i++ {
+		wg.Add(1)
+		go func(i int) {
+			defer wg.Done()
+			req, _ := http.NewRequest(http.MethodPut, fmt.Sprintf("%s/upload/ch/video/%d.cmfv", server.URL, i), bytes.NewReader(make([]byte, 5000)))
+			resp, err := http.DefaultClient.Do(req)
+			if err == nil {
+				resp.Body.Close()
+			}
+		}(i)
+	}
+	wg.Wait()
+}
